@@ -509,9 +509,13 @@ func init() {
 		maxMil, maxMilWhere := 0, ""
 		maxSlack := -1 << 30 // max of size - (8n+256)
 		reported := map[string]bool{}
-		modelBudget := c.N(60000, 400000) // total nodes given to the extracted model
+		// cost units of the extracted model (about 25 M units per second): a case costs
+		// (key bytes) x (bound on the depth); a prefixed case additionally 400 x (prefix bytes added)
+		modelBudget := c.N(170000000, 3000000000)
+		prefixBudget := c.N(90000000, 1500000000)
+		perCase := c.N(6000000, 60000000)
 		bigN := c.N(20000, 100000)
-		prefMaterial := c.N(24<<20, 256<<20)
+		prefMaterial := c.N(6<<20, 256<<20)
 
 		caseNo := 0
 		runCase := func(shape c17Shape, n int, forModel bool) {
@@ -548,9 +552,15 @@ func init() {
 				}
 				return r
 			}
-			emit := forModel && 2*nk <= modelBudget && total <= 400000
+			depthBound := nk
+			if 2*maxLen+1 < depthBound {
+				depthBound = 2*maxLen + 1
+			}
+			cost := (total + nk) * depthBound
+			emit := forModel && nk <= 13000 && cost <= perCase && cost <= modelBudget
 			if emit {
-				modelBudget -= 2 * nk
+				modelBudget -= cost
+				c.Or.Count("model-cases")
 				w := c.Cases()
 				fmt.Fprintf(w, "T %s\n", id)
 				for _, k := range keys {
@@ -615,10 +625,12 @@ func init() {
 				}
 				p := randBytes(pr, pl)
 				pk := c17Prefixed(p, keys)
-				emitP := emit && 2*nk <= modelBudget && pl <= 5000 && nk*pl <= 600000
+				costP := cost + 400*nk*pl
+				emitP := emit && pl <= 5000 && costP <= perCase && costP <= prefixBudget
 				pid := fmt.Sprintf("%s+p%d", id, pl)
 				if emitP {
-					modelBudget -= 2 * nk
+					prefixBudget -= costP
+					c.Or.Count("model-cases")
 					w := c.Cases()
 					fmt.Fprintf(w, "T %s\nP %s\n", pid, hxs(p))
 					for _, k := range keys {
@@ -724,17 +736,29 @@ func init() {
 			}
 		}
 
-		// 1. small cases for the model (exact correspondence) from every shape
-		smallNs := []int{1, 2, 3, 5, 17, 64, 65, 129, 300, 700, 1500}
-		for _, sh := range shapes {
-			for _, n := range smallNs {
+		// 1. small cases for the model (exact correspondence) from every shape, smallest first
+		trieGen := c17Shape{"triegen", func(r *RNG, n int) []string { return genKeySet(r, r.Intn(KKindCnt), 2) }, 1 << 30}
+		for _, n := range []int{1, 2, 3, 5, 17, 64, 65, 129} {
+			for _, sh := range shapes {
 				runCase(sh, n, true)
 			}
 		}
 		// the generators of the point-query properties (tiny, shared prefixes, nibble level, chains, ...)
-		trieGen := c17Shape{"triegen", func(r *RNG, n int) []string { return genKeySet(r, r.Intn(KKindCnt), 2) }, 1 << 30}
 		for i := 0; i < c.N(150, 3000); i++ {
 			runCase(trieGen, 0, true)
+		}
+		// larger regular sets, so that the model sees the larger ShortSize values
+		for _, n := range []int{6000, 12000} {
+			for _, sh := range shapes {
+				if strings.HasPrefix(sh.name, "shortsize") || sh.name == "distinct17" {
+					runCase(sh, n, true)
+				}
+			}
+		}
+		for _, n := range []int{300, 700, 1500, 3000} {
+			for _, sh := range shapes {
+				runCase(sh, n, true)
+			}
 		}
 		// 2. sizes up to the tier limit, implementation only
 		for _, sh := range shapes {
